@@ -379,6 +379,81 @@ def is_type_id_expr(c, fnode, ce):
 _ID_LOCALS = {}
 
 
+_PRED_CACHE = {}
+
+
+def _predicate_helper(c, name):
+    """(params, expression text) of a static helper whose body is a chain `if (C) return E; .. return E;` - a predicate used
+    inside guards (`if (operand_too_small(trans, n, k, ld, o, len(A))) err_buf_len("A")`) - else None"""
+    key = (c.path, name)
+    if key in _PRED_CACHE:
+        return _PRED_CACHE[key]
+    res = None
+    node = c.funcs.get(name)
+    if node is not None and node.get("b") is not None:
+        params = [x.get("n") for x in node.get("c", []) if x.get("k") == "ParmVarDecl"]
+        txt = cx.strip_pp(c.text(node["b"], node["e"]))
+        txt = re.sub(r"/\*.*?\*/", " ", txt, flags=re.S)
+        i = txt.find("{")
+        body = txt[i + 1:txt.rfind("}")].strip() if i >= 0 else ""
+        parts = []
+        ok = bool(body)
+        while body and ok:
+            m1 = re.match(r"if\s*\(", body)
+            if m1:
+                d, j = 0, m1.end() - 1
+                while j < len(body):
+                    if body[j] == "(":
+                        d += 1
+                    elif body[j] == ")":
+                        d -= 1
+                        if d == 0:
+                            break
+                    j += 1
+                cond = body[m1.end():j]
+                m2 = re.match(r"\s*return\s+([^;]+);", body[j + 1:])
+                if not m2:
+                    ok = False
+                    break
+                parts.append((cond, m2.group(1)))
+                body = body[j + 1 + m2.end():].strip()
+            else:
+                m2 = re.fullmatch(r"return\s+([^;]+);", body)
+                if not m2:
+                    ok = False
+                    break
+                parts.append((None, m2.group(1)))
+                body = ""
+        if ok and parts and parts[-1][0] is None and all(p_ for p_ in params):
+            expr = "(%s)" % parts[-1][1]
+            for cond, val in reversed(parts[:-1]):
+                expr = "((%s) ? (%s) : %s)" % (cond, val, expr)
+            res = (params, expr)
+    _PRED_CACHE[key] = res
+    return res
+
+
+def inline_predicates(c, e, depth=0):
+    """replace calls of predicate helpers (see _predicate_helper) by their body with the arguments substituted"""
+    if not isinstance(e, tuple) or depth > 3:
+        return e
+    if e[0] == "call" and isinstance(e[1], str) and e[1] in c.funcs:
+        ph = _predicate_helper(c, e[1])
+        if ph is not None and len(ph[0]) == len(e[2]):
+            txt = ph[1]
+            # simultaneous substitution through placeholders
+            for k, p_ in enumerate(ph[0]):
+                txt = re.sub(r"(?<![\w.>])%s\b" % re.escape(p_), "\x00%d\x00" % k, txt)
+            for k, a in enumerate(e[2]):
+                txt = txt.replace("\x00%d\x00" % k, "(" + cx.unparse(a) + ")")
+            try:
+                return inline_predicates(c, cx.parse(txt), depth + 1)
+            except cx.ParseError:
+                return e
+    return tuple(inline_predicates(c, x, depth) if isinstance(x, tuple) else
+                 ([inline_predicates(c, y, depth) for y in x] if isinstance(x, list) else x) for x in e)
+
+
 def _disjuncts(e):
     e = cx.strip_casts(e)
     if e[0] == "bin" and e[1] == "||":
@@ -420,6 +495,7 @@ class Simulator:
                 txt = self.c.text(span[0] + 1, span[1])
                 try:
                     res = cx.parse(txt)
+                    res = inline_predicates(self.c, res)
                 except cx.ParseError as ex:
                     self.parse_errors.append((txt[:60], str(ex)))
         self._cond_cache[key] = res
@@ -498,6 +574,10 @@ class Simulator:
             self._scan_cond(e[3], loc, flags, signs, ptrs, rejecting)
         elif k == "un" and e[1] == "!":
             self._scan_cond(e[2], loc, flags, signs, ptrs, rejecting)
+        elif k == "tern":
+            # an inlined predicate helper: `(k <= 0) ? 0 : ((trans == 'N') ? .. : ..)`
+            for sub in e[1:4]:
+                self._scan_cond(sub, loc, flags, signs, ptrs, rejecting)
         elif k == "id":
             t = loc.get(e[1], "")
             if t == "int":
@@ -833,6 +913,12 @@ class Simulator:
                     if e and e[0] == "assign" and e[1] == "=" and e[2] == ("id", tgt) and tgt not in cx.idents(e[3]):
                         e = ("assign", "=", e[2], _resolve(e[3], self.case))
                         p = cx.to_poly(e[3])
+                        # a local assigned a copy of a case variable (`yn = (trans == 'N') ? m : n;` resolved by the case's flag) has
+                        # that variable's sign: case combinations that give it another one are infeasible
+                        r0 = cx.strip_casts(e[3])
+                        if r0[0] == "id" and r0[1] in self.orig_case.signs and tgt in self.orig_case.signs \
+                                and self.orig_case.signs[tgt] != self.orig_case.signs[r0[1]]:
+                            self.infeasible = True
                         if p is not None:
                             f = Fact("==", e[2], e[3], cx.unparse(e))
                             f.assign_var, f.assign_poly = tgt, p
